@@ -51,7 +51,7 @@ ASSUMPTIONS = [
     "n ranges over 0..3 for programs",
 ]
 TIMEOUT = {"quick": 40, "thorough": 120}
-DEADLINE = {"quick": 110, "thorough": 1500}
+DEADLINE = {"quick": 110, "thorough": 1000}
 MIN_DECIDING = {"quick": 60, "thorough": 600}
 NDIRECT = {"quick": 140, "thorough": 2400}
 NPROG = {"quick": 40, "thorough": 700}
